@@ -44,6 +44,9 @@ class DBusMessage :
     signature = None
     body = None
 
+    # header flag bits other than the two above, kept as they were received
+    _otherFlags = 0
+
     # Set during marshalling/unmarshalling
     endian = ord('l')
     bodyLength = 0
@@ -80,7 +83,7 @@ class DBusMessage :
                         order given by C{self.endian}) to use instead of
                         encoding C{self.body}
         """
-        flags = 0
+        flags = self._otherFlags
 
         if not self.expectReply:
             flags |= 0x1
@@ -402,6 +405,7 @@ def parseMessage(rawMessage, oobFDs):
 
     m.expectReply = not (hval[2] & 0x1)
     m.autoStart = not (hval[2] & 0x2)
+    m._otherFlags = hval[2] & ~0x3
 
     for code, v in hval[6]:
         try:
